@@ -1,4 +1,5 @@
 import shutil
+import stat
 from typing import Tuple, Callable
 
 from exactly_lib.execution.configuration import ExecutionConfiguration
@@ -62,8 +63,28 @@ def execute(test_case: TestCase,
     finally:
         if not is_keep_sandbox:
             if ret_val is not None and ret_val.has_sds:
+                _make_dirs_writable(str(ret_val.sds.root_dir))
                 shutil.rmtree(str(ret_val.sds.root_dir),
                               ignore_errors=True)
                 verif_trace.emit('sds-remove', lambda: dict(exists_after=ret_val.sds.root_dir.exists()))
         verif_trace.emit('partial-end', lambda: dict(cwd=os.getcwd(),
                                                      has_sds=(ret_val is not None and ret_val.has_sds)))
+
+
+def _make_dirs_writable(root_dir: str):
+    """
+    A directory that the test case has made read-only
+    would prevent the removal of its contents.
+    """
+    _add_owner_permissions(root_dir)
+    for dir_path, dir_names, _ in os.walk(root_dir):
+        for dir_name in dir_names:
+            _add_owner_permissions(os.path.join(dir_path, dir_name))
+
+
+def _add_owner_permissions(dir_path: str):
+    try:
+        if not os.path.islink(dir_path):
+            os.chmod(dir_path, os.stat(dir_path).st_mode | stat.S_IRWXU)
+    except OSError:
+        pass
